@@ -247,6 +247,36 @@ def run(ctx):
     ctx.assumptions += ['only escape units with an unambiguous meaning are generated for decoding ('' \\\' \\" \\\\)',
                         'decimals are compared after conversion to float (float precision is accepted)',
                         'a literal the dialect rejects is outside the property (counted, not judged)']
+    # ---------------- an identifier prints what it holds NOW: print, edit the parts in place (what the grammar's
+    # `identifier DOT identifier` action and the planner's qualifier stripping do), print again
+    from mindsdb_sql import parse_sql as _ps
+    from mindsdb_sql.parser.ast import Identifier as _Id
+    n_edit = 0
+    for text_ in ('select int1.tbl.a from int1.tbl', 'select `my db`.tbl.`col x` from t', 'select a.b from c.d as e'):
+        for edit in ('pop0', 'append', 'setitem', 'insert0', 'alias-parts'):
+            tree_ = _ps(text_, 'mindsdb')
+            node = tree_.targets[0]
+            before = str(node)
+            str(tree_)
+            if edit == 'pop0':
+                node.parts.pop(0)
+            elif edit == 'append':
+                node.parts.append('zz')
+            elif edit == 'setitem':
+                node.parts[-1] = 'other name'
+            elif edit == 'insert0':
+                node.parts.insert(0, 'q')
+            else:
+                node.alias = _Id(parts=['al'])
+                str(node)
+                node.alias.parts[0] = 'al 2'
+            fresh = _Id(parts=list(node.parts), alias=node.alias)
+            n_edit += 1
+            if str(node) != str(fresh) or node.to_string() != fresh.to_string():
+                ctx.violation('print-stale-after-in-place-edit:%s' % edit,
+                              'an identifier that was printed once keeps printing its old parts after they were edited in place',
+                              {'text': text_, 'edit': edit, 'printed_before': before, 'prints': str(node), 'holds': [str(p_) for p_ in node.parts]})
+    ctx.cov['identifier_in_place_edits'] = n_edit
     return ctx.finish(exhaustive=True)
 
 
